@@ -99,6 +99,8 @@ func c38Scenarios() []c38Scenario {
 		{Name: "cni-v4-legacy", V4: true, Legacy: true, Pool4: "10.0.0.0/30", BS4: 31, Thorough: []c38Pass{P(5, 1, 1), P(4, 2, 1)}},
 		{Name: "cni-v6", V6: true, Pool6: "fd00::/126", BS6: 127, Thorough: []c38Pass{P(5, 1, 1), P(4, 2, 1)}},
 		{Name: "cni-v4-blocks-of-4", V4: true, Pool4: "10.0.0.0/29", BS4: 30, Thorough: []c38Pass{P(5, 1, 1), P(4, 2, 1)}},
+		// the most expensive passes last: a deadline then only costs these
+		{Name: "cni-v4-deep", V4: true, Pool4: "10.0.0.0/30", BS4: 31, Thorough: []c38Pass{P(4, 1, 2), P(5, 0, 1)}},
 	}
 }
 
@@ -556,20 +558,35 @@ func c38Template(sc *c38Scenario, lock string) ([]casstore.Item, error) {
 		addPool("pool6", sc.Pool6, sc.BS6)
 	}
 	items := st.Snapshot("")
-	must := func(cmd c38Cmd, v4, v6 bool) error {
-		r := c38Exec(sc, items, cmd, nil, lock, v4, v6)
-		if r.Err != nil {
-			return fmt.Errorf("set-up %s failed: %v", cmd, r.Err)
+	// Set-up goes straight through the IPAM client, so that it does not depend on the plugin code
+	// under test. Claim the host's first block of each family: one container comes and goes.
+	{
+		w := c38NewWorld(items)
+		cfg := apiconfig.NewCalicoAPIConfig()
+		cfg.Spec.DatastoreType = apiconfig.EtcdV3
+		ic := client.NewFromBackend(*cfg, w.store).IPAM()
+		h := c38Net + ".seed"
+		a := ipam.AutoAssignArgs{HandleID: &h, Hostname: c38Node, IntendedUse: v3.IPPoolAllowedUseWorkload}
+		if sc.Pool4 != "" {
+			a.Num4 = 1
 		}
-		items = r.Items
-		return nil
-	}
-	// claim the host's first block of each family: one container comes and goes
-	if err := must(c38Cmd{"ADD", "seed"}, sc.Pool4 != "", sc.Pool6 != ""); err != nil {
-		return nil, err
-	}
-	if err := must(c38Cmd{"DEL", "seed"}, sc.Pool4 != "", sc.Pool6 != ""); err != nil {
-		return nil, err
+		if sc.Pool6 != "" {
+			a.Num6 = 1
+		}
+		r4, r6, err := ic.AutoAssign(context.Background(), a)
+		if err == nil {
+			if (a.Num4 == 1 && (r4 == nil || len(r4.IPs) != 1)) || (a.Num6 == 1 && (r6 == nil || len(r6.IPs) != 1)) {
+				err = fmt.Errorf("no address")
+			}
+		}
+		if err == nil {
+			err = ic.ReleaseByHandle(context.Background(), h)
+		}
+		w.close()
+		if err != nil {
+			return nil, fmt.Errorf("set-up (claiming the first blocks) failed: %v", err)
+		}
+		items = w.store.Snapshot("")
 	}
 	if sc.Legacy {
 		// an allocation made the way calico v2.x did: directly under the workload id
@@ -584,13 +601,37 @@ func c38Template(sc *c38Scenario, lock string) ([]casstore.Item, error) {
 		}
 		items = w.store.Snapshot("")
 	}
+	// exhaust a family's pool on behalf of other containers, directly through the IPAM client (so
+	// that set-up does not depend on how the plugin under test reports exhaustion)
 	fill := func(v4 bool) error {
+		w := c38NewWorld(items)
+		defer w.close()
+		cfg := apiconfig.NewCalicoAPIConfig()
+		cfg.Spec.DatastoreType = apiconfig.EtcdV3
+		ic := client.NewFromBackend(*cfg, w.store).IPAM()
 		for i := 0; i < 20; i++ {
-			r := c38Exec(sc, items, c38Cmd{"ADD", "fill" + strconv.Itoa(i)}, nil, lock, v4, !v4)
-			if r.Err != nil {
+			h := c38Net + ".other" + strconv.Itoa(i)
+			a := ipam.AutoAssignArgs{HandleID: &h, Hostname: c38Node, IntendedUse: v3.IPPoolAllowedUseWorkload}
+			if v4 {
+				a.Num4 = 1
+			} else {
+				a.Num6 = 1
+			}
+			r4, r6, err := ic.AutoAssign(context.Background(), a)
+			if err != nil {
+				return fmt.Errorf("set-up: filling the pool failed: %v", err)
+			}
+			got := 0
+			if r4 != nil {
+				got += len(r4.IPs)
+			}
+			if r6 != nil {
+				got += len(r6.IPs)
+			}
+			if got == 0 {
+				items = w.store.Snapshot("")
 				return nil // pool exhausted
 			}
-			items = r.Items
 		}
 		return fmt.Errorf("set-up: pool never filled up")
 	}
@@ -699,8 +740,22 @@ func c38Step(sc *c38Scenario, s *c38State, r, base *c38Run, limitFaulty bool) (*
 					}
 				}
 				if held == 0 {
+					ac := fc
+					if len(r.Decs) == 0 {
+						ac = "any"
+					} else if base != nil && base.Err == nil && base.Panic == "" {
+						inBase := 0
+						for _, a := range c38Allocs(base.Items) {
+							if a.Handle == cid && a.Fam == f.fam {
+								inBase++
+							}
+						}
+						if inBase == 0 {
+							ac = "any" // the fault-free ADD from the same state succeeds without it as well
+						}
+					}
 					fails = append(fails, c38Fail{
-						Key: fmt.Sprintf("C38:add-ok-without-address:ipv%d:add=%s", f.fam, fc),
+						Key: fmt.Sprintf("C38:add-ok-without-address:ipv%d:add=%s", f.fam, ac),
 						Msg: fmt.Sprintf("%s returned success but handle %q holds no IPv%d address; allocations now: %v", r.label(), cid, f.fam, allocs),
 					})
 				}
@@ -804,6 +859,12 @@ func c38Explore(c *vk.Ctx, sc *c38Scenario, init []casstore.Item, p c38Params, l
 						for _, r := range runs {
 							hist := append(s.hist(), r.label())
 							if strings.HasPrefix(r.Panic, "TOOL:") {
+								if reps > 1 {
+									// block order not under control: the points of a re-execution may differ
+									// from those of the execution the decisions were derived from; drop it
+									atomic.AddInt64(&trans, -1)
+									continue
+								}
 								c.ToolError(fmt.Sprintf("%s %v: %s", sc.Name, hist, r.Panic))
 								continue
 							}
